@@ -10,6 +10,24 @@ let digest (xs : int list) =
   let h = List.fold_left (fun h x -> (h * 31 + x + 1) mod 1_000_000_007) 7 xs in
   Printf.sprintf "%d:%d" (List.length xs) h
 
+(* canonical text of the representation; same format as [shape] in harness/src/bin/c17.rs *)
+let rec show_node = function
+  | Leaf d -> "L[" ^ String.concat "," (List.map (fun x -> string_of_int (int_of_nat x)) d) ^ "]"
+  | Interior ch -> "I[" ^ String.concat "," (List.map show_node ch) ^ "]"
+
+let show_vec v =
+  Printf.sprintf "Vector{root:%s,length:%d,height:%d}"
+    (match v.root with None -> "None" | Some r -> "Some(" ^ show_node r ^ ")")
+    (int_of_nat v.vlen) (int_of_nat v.height)
+
+let show_slice s =
+  Printf.sprintf "Slice{vec:%s,start:%d,end:%d}" (show_vec s.svec) (int_of_nat s.sstart) (int_of_nat s.send)
+
+let sdigest (s : string) =
+  let h = ref 5 in
+  String.iter (fun c -> h := (!h * 131 + Char.code c) mod 1_000_000_007) s;
+  !h
+
 let parse_list s =
   if s = "" then [] else List.map (fun x -> nat_of_int (int_of_string x)) (String.split_on_char '.' s)
 
@@ -59,8 +77,8 @@ let () =
           Buffer.add_char buf ' ') tr;
         Buffer.add_string buf "END ";
         let show l = String.concat "." (List.map string_of_int (ints l)) in
-        List.iteri (fun i h -> match h with Some l -> Buffer.add_string buf (Printf.sprintf "v%d=[%s]" i (show l)) | None -> ()) !last.svs;
-        List.iteri (fun i h -> match h with Some l -> Buffer.add_string buf (Printf.sprintf "s%d=[%s]" i (show l)) | None -> ()) !last.sss
+        List.iteri (fun i h -> match h with Some l -> Buffer.add_string buf (Printf.sprintf "v%d=[%s]|" i (show l)) | None -> ()) !last.svs;
+        List.iteri (fun i h -> match h with Some l -> Buffer.add_string buf (Printf.sprintf "s%d=[%s]|" i (show l)) | None -> ()) !last.sss
       end else begin
         let tr = irun bn iinit ops in
         let last = ref iinit in
@@ -71,14 +89,14 @@ let () =
           List.iteri (fun i h -> match h with
             | Some v ->
                 if not (check_invariants bn v) then Buffer.add_string buf "!INV";
-                Buffer.add_string buf (Printf.sprintf "v%d=%s|" i (digest (ints (to_list v))))
+                Buffer.add_string buf (Printf.sprintf "v%d=%s~%d|" i (digest (ints (to_list v))) (sdigest (show_vec v)))
             | None -> ()) st.ivs;
-          List.iteri (fun i h -> match h with Some s -> Buffer.add_string buf (Printf.sprintf "s%d=%s|" i (digest (sl s))) | None -> ()) st.iss;
+          List.iteri (fun i h -> match h with Some s -> Buffer.add_string buf (Printf.sprintf "s%d=%s~%d|" i (digest (sl s)) (sdigest (show_slice s))) | None -> ()) st.iss;
           Buffer.add_char buf ' ') tr;
         Buffer.add_string buf "END ";
         let show l = String.concat "." (List.map string_of_int l) in
-        List.iteri (fun i h -> match h with Some v -> Buffer.add_string buf (Printf.sprintf "v%d=[%s]" i (show (ints (to_list v)))) | None -> ()) !last.ivs;
-        List.iteri (fun i h -> match h with Some s -> Buffer.add_string buf (Printf.sprintf "s%d=[%s]" i (show (sl s))) | None -> ()) !last.iss
+        List.iteri (fun i h -> match h with Some v -> Buffer.add_string buf (Printf.sprintf "v%d=[%s]~%s|" i (show (ints (to_list v))) (show_vec v)) | None -> ()) !last.ivs;
+        List.iteri (fun i h -> match h with Some s -> Buffer.add_string buf (Printf.sprintf "s%d=[%s]~%s|" i (show (sl s)) (show_slice s)) | None -> ()) !last.iss
       end;
       print_string (Buffer.contents buf); print_newline ()
     done
